@@ -9,6 +9,7 @@ against Model/Convert.v (built on the regenerated Gen/Convert_Q.v, Gen/Fit_Q.v, 
 Gen/Battery_Q.v)."""
 import datetime
 import math
+import numbers
 import time
 import fractions
 import warnings
@@ -17,8 +18,8 @@ from harness.core import q, z, coq_list, coq_bool, coq_opt, coq_str
 
 PID = "C15"
 GEN_GROUPS = ["Convert", "Fit", "FitConst"]
-TARGETS = ["coq/Props/C15.vo", "coq/Model/Convert.vo"]
-CASES = {"quick": 220, "thorough": 4000}
+TARGETS = ["coq/Props/C15.vo", "coq/Model/Convert.vo", "coq/Proofs/ConvertDeliver.vo"]
+CASES = {"quick": 190, "thorough": 4000}
 CORR_HEADER = ("From Coq Require Import ZArith QArith List String.\n"
                "From ACN Require Import Base.Num Model.Convert.\nImport ListNotations.\n"
                "Open Scope string_scope.\nOpen Scope Q_scope.\n")
@@ -166,7 +167,7 @@ def fit_margin(E, n, V, T):
 # running the implementation
 # ---------------------------------------------------------------------------------------------
 def is_fit(bp):
-    return bp in ("fit", "fitkw")
+    return bp in ("fit", "fitkw", "fitkw0")
 
 
 def bp_value(bp):
@@ -179,10 +180,13 @@ def bp_value(bp):
         return {"type": Battery, "kwargs": {}}
     if bp == "fitkw":      # the 'kwargs' key: passed on to the battery constructor
         return {"type": Linear2StageBattery, "capacity_fn": batt_cap_fn, "kwargs": dict(FIT_KWARGS)}
+    if bp == "fitkw0":     # legal corner: transition_soc = 0 (rampdown from the start), explicit zero noise
+        return {"type": Linear2StageBattery, "capacity_fn": batt_cap_fn, "kwargs": dict(FIT_KWARGS0)}
     return {"type": Linear2StageBattery, "capacity_fn": batt_cap_fn}
 
 
 FIT_KWARGS = {"noise_level": 0.125, "transition_soc": 0.75}
+FIT_KWARGS0 = {"noise_level": 0, "transition_soc": 0.0}
 
 
 def ev_obs(ev, V=None, T=None):
@@ -199,6 +203,20 @@ def ev_obs(ev, V=None, T=None):
             o["fit_delivered"] = float(b2._current_charge) - o["init"]
         except Exception as e:  # noqa
             o["fit_error"] = err_tag(e)
+    if V is not None:
+        # JSON round trip of the generated EV (to_json / from_json): the reloaded object must show the
+        # same session, and is then charged flat out through the public EV.charge for the whole stay
+        try:
+            from acnportal.acnsim.models.ev import EV
+            ev2 = EV.from_json(ev.to_json())
+            o2 = _ev_obs(ev2)
+            o["json_diff"] = sorted(k for k in o2 if o2[k] != o[k])
+            if type(b).__name__ == "Battery" and not (math.isinf(o["init"]) or math.isnan(o["requested"])):
+                for _ in range(max(0, o["departure"] - o["arrival"])):
+                    ev2.charge(1000, V, T)
+                o["flat_out"] = float(ev2.energy_delivered)
+        except Exception as e:  # noqa
+            o["json_error"] = err_tag(e)
     return o
 
 
@@ -206,21 +224,51 @@ def _ev_obs(ev):
     b = ev._battery
     return dict(arrival=int(ev.arrival), departure=int(ev.departure), requested=float(ev.requested_energy),
                 cap=float(b._capacity), init=float(b._init_charge),
-                int_types=bool(isinstance(ev.arrival, int) and isinstance(ev.departure, int)),
+                int_types=bool(isinstance(ev.arrival, numbers.Integral) and isinstance(ev.departure, numbers.Integral)),
                 est_dep=int(ev.estimated_departure), max_power=float(b._max_power),
                 session=str(ev.session_id), station=str(ev.station_id), btype=type(b).__name__,
                 bkw=[getattr(b, "_noise_level", None), getattr(b, "_transition_soc", None)])
 
 
-def run_acn(inp, bp_obj="fresh", docs_obj=None):
+# (sessionID, spaceID): falsy, numeric-looking, mixed case, registration order != lexicographic order
+ODD_IDS = [(0, ""), ("", 0), ("S-10", "S-9"), ("S-9", "s-11"), ("007", 10), ("Sess", "S-10")]
+
+
+def doc_ids(inp, i):
+    if inp.get("ids") == "odd":
+        return ODD_IDS[i % len(ODD_IDS)]
+    return "sess%d" % i, "space%d" % i
+
+
+def as_dtype(x, how):
+    """the same number as another numeric type (numpy scalar / python int) — dtype family of the audit"""
+    if how is None or x is None or isinstance(x, bool):
+        return x
+    import numpy as np
+    if how == "np":
+        return np.int64(x) if float(x).is_integer() and not isinstance(x, float) else np.float64(x)
+    if how == "int" and float(x).is_integer():
+        return int(x)
+    return x
+
+
+def make_docs(inp):
+    _imports()
+    docs = []
+    for i, d in enumerate(inp["docs"]):
+        sid, spid = doc_ids(inp, i)
+        docs.append(dict(connectionTime=mkdt(d["conn"][0], d["conn"][1], d["zone"]),
+                         disconnectTime=mkdt(d["disc"][0], d["disc"][1], d["zone"]),
+                         kWhDelivered=as_dtype(d["kwh"], inp.get("dtype")), sessionID=sid, spaceID=spid))
+    return docs
+
+
+def run_acn(inp, bp_obj="fresh", docs_obj=None, keep=None):
     """get_evs with DataClient stubbed; returns dict(evs=[...]) or dict(error=tag)"""
     _imports()
     from acnportal.acnsim.events import acndata_events as ae
-    docs = [] if docs_obj is None else docs_obj
-    for i, d in enumerate(inp["docs"] if docs_obj is None else []):
-        docs.append(dict(connectionTime=mkdt(d["conn"][0], d["conn"][1], d["zone"]),
-                         disconnectTime=mkdt(d["disc"][0], d["disc"][1], d["zone"]),
-                         kWhDelivered=d["kwh"], sessionID="sess%d" % i, spaceID="space%d" % i))
+    docs = make_docs(inp) if docs_obj is None else docs_obj
+    ids = [d["sessionID"] for d in docs]
 
     class StubClient:
         def __init__(self, token):
@@ -236,78 +284,111 @@ def run_acn(inp, bp_obj="fresh", docs_obj=None):
             warnings.simplefilter("ignore")
             try:
                 fn = ae.generate_events if inp.get("via") == "queue" else ae.get_evs
-                evs = fn("token", "site", start, start + datetime.timedelta(days=30), inp["T"], inp["V"],
-                         inp["maxP"], max_len=inp["max_len"],
+                dt_ = inp.get("dtype")
+                evs = fn("token", "site", start, start + datetime.timedelta(days=30), as_dtype(inp["T"], dt_),
+                         as_dtype(inp["V"], dt_), as_dtype(inp["maxP"], dt_), max_len=as_dtype(inp["max_len"], dt_),
                          battery_params=bp_value(inp["bp"]) if bp_obj == "fresh" else bp_obj,
                          force_feasible=inp["ff"])
             except Exception as e:  # noqa
                 return dict(error=err_tag(e))
         if inp.get("via") == "queue":       # acndata_events.generate_events: an EventQueue of PluginEvents
-            items = sorted(((int(it[1].ev.session_id[4:]), it) for it in evs.queue), key=lambda p: p[0])
+            items = sorted(((ids.index(it[1].ev.session_id), it) for it in evs.queue), key=lambda p: p[0])
             out = []
             for _, it in items:
                 o = ev_obs(it[1].ev, inp["V"], inp["T"])
                 o["event_ts"] = int(it[0])
                 o["event_type"] = it[1].event_type
                 out.append(o)
+            if keep is not None:
+                keep.extend(it[1].ev for _, it in items)
             return dict(evs=out)
+        if keep is not None:
+            keep.extend(evs)
         return dict(evs=[ev_obs(e, inp["V"], inp["T"]) for e in evs])
     finally:
         ae.DataClient = orig
 
 
-def run_stoch(inp, bp_obj="fresh"):
-    import numpy as np
+def make_gen(cls, clip):
+    """a generator object and its feed box (the raw draws it will serve); reusable across calls"""
     from acnportal.acnsim.events.stochastic_events import StochasticEvents, GaussianMixtureEvents
-    days = [np.array(d, dtype=float).reshape((len(d), 3)) for d in inp["days"]]
-    served = [d for d in days if len(d) > 0]
-    calls = []
+    box = dict(served=[], i=0)
+
+    def nxt(n):
+        m = box["served"][box["i"]]
+        box["i"] += 1
+        assert len(m) == n
+        return m.copy()
 
     class StubGMM:
         def sample(self, n):
-            m = served[len(calls)]
-            calls.append(n)
-            assert len(m) == n
-            return m.copy(), None
+            return nxt(n), None
 
     class MyEvents(StochasticEvents):          # the documented extension point: fit / sample
         def fit(self, data, **kw):
             pass
 
         def sample(self, n):
-            m = served[len(calls)]
-            calls.append(n)
-            return self.clip_samples(m.copy())
-    b = inp["clip"]
-    if inp["cls"] == "gmm":
-        gen = GaussianMixtureEvents(*b, pretrained_model=StubGMM())
-    else:
-        gen = MyEvents(*b)
+            return self.clip_samples(nxt(n))
+    if cls == "gmm":
+        return GaussianMixtureEvents(*clip, pretrained_model=StubGMM()), box
+    return MyEvents(*clip), box
+
+
+def run_stoch(inp, bp_obj="fresh", gen_pair=None, keep=None):
+    import numpy as np
     import io
     import contextlib
+    from acnportal.acnsim.events.stochastic_events import StochasticEvents
+    dt_ = inp.get("dtype")
+    bpv = bp_value(inp["bp"]) if bp_obj == "fresh" else bp_obj
+    T, V, maxP, max_len = (as_dtype(inp[k], dt_) for k in ("T", "V", "maxP", "max_len"))
+    direct = inp["cls"] == "direct"
+    if direct:
+        # the public static converter on a caller-owned matrix (no clipping, one day); int dtype when asked
+        rows = inp["days"][0]
+        matrix = np.array(rows, dtype=(int if inp.get("int_matrix") else float)).reshape((len(rows), 3))
+        before = matrix.copy()
+    else:
+        days = [np.array(d, dtype=float).reshape((len(d), 3)) for d in inp["days"]]
+        gen, box = gen_pair if gen_pair is not None else make_gen(inp["cls"], inp["clip"])
+        box["served"], box["i"] = [d for d in days if len(d) > 0], 0
     with warnings.catch_warnings(), contextlib.redirect_stdout(io.StringIO()):
         warnings.simplefilter("ignore")
         try:
-            queue = gen.generate_events([len(d) for d in days], inp["T"], inp["V"], inp["maxP"],
-                                        max_len=inp["max_len"],
-                                        battery_params=bp_value(inp["bp"]) if bp_obj == "fresh" else bp_obj,
-                                        force_feasible=inp["ff"])
+            if direct:
+                evs = StochasticEvents._convert_ev_matrix(matrix, T, V, maxP, max_len, bpv, inp["ff"])
+                items = [(ev.arrival, ev) for ev in evs]
+            else:
+                queue = gen.generate_events([len(d) for d in days], T, V, maxP, max_len=max_len,
+                                            battery_params=bpv, force_feasible=inp["ff"])
+                items = [(it[0], it[1].ev) for it in queue.queue]
         except Exception as e:  # noqa
             return dict(error=err_tag(e))
     out = []
-    for item in queue.queue:
-        ts, ev = item[0], item[1].ev
+    for ts, ev in items:
         o = ev_obs(ev, inp["V"], inp["T"])
         o["row"] = int(o["session"].split("_")[1])
         o["event_ts"] = int(ts)
+        o["_ev"] = ev
         out.append(o)
     out.sort(key=lambda o: o["row"])
-    return dict(evs=out)
+    ev_list = [o.pop("_ev") for o in out]
+    if keep is not None:
+        keep.extend(ev_list)
+    res = dict(evs=out)
+    if direct:
+        res["matrix_same"] = bool((matrix == before).all())
+        matrix[:] = -7                      # the caller scribbles over its matrix afterwards
+        res["after_scribble"] = [_ev_obs(ev) for ev in ev_list]
+    return res
 
 
 def run_fit(inp):
     from acnportal.acnsim.models.battery import Linear2StageBattery, batt_cap_fn
-    E, n, V, T = inp["E"], inp["n"], inp["V"], inp["T"]
+    dt_ = inp.get("dtype")
+    E, n, V, T = as_dtype(inp["E"], dt_), as_dtype(inp["n"], dt_), as_dtype(inp["V"], dt_), as_dtype(inp["T"], dt_)
+    n_int = int(inp["n"])
     with warnings.catch_warnings():
         warnings.simplefilter("ignore")
         try:
@@ -319,14 +400,37 @@ def run_fit(inp):
         cap, init = float(cap), float(init)
         if math.isinf(init):
             return dict(kind=1, cap=cap)
+        extra = {}
+        try:
+            # the function keeps no state: another request in between, then the same request again
+            batt_cap_fn(3.0, 9, 240, 15)
+            again = batt_cap_fn(E, n, V, T)
+            extra["again_same"] = (float(again[0]), float(again[1])) == (cap, init)
+        except Exception as e:  # noqa
+            extra["again_same"] = False
         try:
             batt = Linear2StageBattery(cap, init, 32 * V / 1000)
-            rates = [float(batt.charge(32, V, T)) for _ in range(n)]
+            rates = [float(batt.charge(32, V, T)) for _ in range(n_int)]
+            final = float(batt._current_charge)
+            # reset() and charge again; reset(x) then reset(); JSON round trip half way through the stay
+            batt.reset()
+            for _ in range(n_int):
+                batt.charge(32, V, T)
+            extra["reset_same"] = float(batt._current_charge) == final
+            batt.reset(init / 2)
+            batt.reset()
+            extra["reset_init"] = float(batt._current_charge) == init
+            for _ in range(n_int // 2):
+                batt.charge(32, V, T)
+            b2 = Linear2StageBattery.from_json(batt.to_json())
+            for _ in range(n_int - n_int // 2):
+                b2.charge(32, V, T)
+            extra["json_mid_same"] = float(b2._current_charge) == final
         except Exception as e:  # noqa
             return dict(kind=4 if init > cap else 0, cap=cap, init=init, final=-1.0, by_rates=-1.0,
                         charge_error=err_tag(e))
-    return dict(kind=0, cap=cap, init=init, final=float(batt._current_charge),
-                by_rates=float(sum(rates) * V / 1000 * (T / 60)))
+    return dict(kind=0, cap=cap, init=init, final=final,
+                by_rates=float(sum(rates) * V / 1000 * (T / 60)), **extra)
 
 
 # ---------------------------------------------------------------------------------------------
@@ -342,7 +446,7 @@ def zlit_(n):
 
 
 def bp_coq(bp):
-    return "BP_fit" if bp in ("fit", "fitkw") else "BP_default"
+    return "BP_fit" if is_fit(bp) else "BP_default"
 
 
 def res_coq(impl, item):
@@ -418,6 +522,10 @@ def gen_acn_input(rng):
     ff = rng.random() < 0.5
     max_len = rng.choice([None, None, None, 0, 1, 3, 12, 48, 100])
     via = rng.choice(["evs", "evs", "queue"])
+    ids = rng.choice(["plain", "plain", "plain", "odd"])
+    dtype = rng.choice([None, None, "np", "int"])
+    if rng.random() < 0.12:
+        bp = "fitkw0"
     docs = []
     t0 = start[0]
     for _ in range(rng.choice([1, 1, 2] if bp in ("fit", "fitkw") else [1, 1, 2, 3, 4])):
@@ -425,6 +533,8 @@ def gen_acn_input(rng):
             conn = near_boundary(rng, t0 + rng.randint(0, 6 * 3600), T)
         else:
             conn = rand_instant(rng, t0, t0 + 8 * 3600)
+        if rng.random() < 0.06:          # a session that began before the simulation start: negative arrival
+            conn = near_boundary(rng, start[0] - rng.randint(1, 5 * 3600), T)
         dur_choice = rng.random()
         if dur_choice < 0.15:        # same period / very short
             dsec = rng.choice([0, 1, 20, 59])
@@ -445,6 +555,8 @@ def gen_acn_input(rng):
             kwh = rng.choice([0.5, 1, 3.3, 6.6, 10, 13.37, 25])
         elif kind < 0.5:
             kwh = capP * rng.choice([0.5, 0.999, 1.0, 1.001, 2])
+            if rng.random() < 0.3 and capP > 0:    # exactly on / one ulp around the force_feasible cap
+                kwh = rng.choice([capP, math.nextafter(capP, 0.0), math.nextafter(capP, math.inf)])
         elif kind < 0.85:
             kwh = min(cap32, 95.0) * rng.choice([0.02, 0.1, 0.3, 0.5, 0.8, 0.99])
             if ff and maxP < 32 * V / 1000 and rng.random() < 0.7:
@@ -458,7 +570,7 @@ def gen_acn_input(rng):
         docs.append(dict(conn=conn, disc=disc, kwh=float(kwh), zone=rng.choice([zone, zone, rng.choice(ZONES)])))
         t0 = conn[0]
     return dict(stream="acn", start=start, zone=zone, T=T, V=V, maxP=maxP, max_len=max_len, ff=ff, bp=bp, docs=docs,
-                via=via)
+                via=via, ids=ids, dtype=dtype)
 
 
 def acn_ambiguous(inp, impl):
@@ -502,7 +614,7 @@ def gen_stoch_input(rng):
     maxP = rng.choice(MAXP)
     bp = rng.choice(["none", "battery", "fit"])
     ff = rng.random() < 0.5
-    max_len = rng.choice([None, None, 0.5, 1, 3, 24])
+    max_len = rng.choice([None, None, None, 0.5, 1, 3, 24, 0])
     clip = rng.choice([[0.0, 24.0, 0.0833, 48.0, 0.5, 150.0]] * 2 +
                       [[6.0, 20.0, 0.25, 12.0, 1.0, 60.0], [-5.0, 30.0, -1.0, 100.0, -1.0, 200.0],
                        [0.0, 24.0, 0.0, 48.0, 0.0, 150.0]])
@@ -534,7 +646,24 @@ def gen_stoch_input(rng):
                 e = rng.choice([0.0, -2.0, 0.5, 3, 6.6, 10, 15, 49.5, 160.0, round(rng.uniform(0, 40), 3)])
             rows.append([float(a), float(d), float(e)])
         days.append(rows)
-    return dict(stream="stoch", cls=cls, clip=clip, T=T, V=V, maxP=maxP, max_len=max_len, ff=ff, bp=bp, days=days)
+    inp = dict(stream="stoch", cls=cls, clip=clip, T=T, V=V, maxP=maxP, max_len=max_len, ff=ff, bp=bp, days=days,
+               dtype=rng.choice([None, None, "np", "int"]))
+    if rng.random() < 0.15:
+        make_direct(inp, rng)
+    return inp
+
+
+WIDE = [-1e12, 1e12, -1e12, 1e12, -1e12, 1e12]
+
+
+def make_direct(inp, rng):
+    """turn a stoch input into a direct call of the static _convert_ev_matrix on a caller-owned matrix"""
+    rows = [r for d in inp["days"] for r in d] or [[6.5, 2.0, 5.0]]
+    inp.update(cls="direct", clip=list(WIDE), days=[rows])
+    if rng.random() < 0.4:                       # an integer-dtype matrix
+        inp["int_matrix"] = True
+        inp["days"] = [[[float(int(x)) for x in r] for r in rows]]
+    return inp
 
 
 def stoch_rows_exact(inp):
@@ -614,7 +743,7 @@ def gen_fit_input(rng):
         E = float(rng.choice([0.0, 1.0, 8.0, 8.000001, 24.0, 60.0, 100.0, 100.5, 7.3, 55.5]))
     if rng.random() < 0.03:
         E = float(rng.choice([-1.5, -0.25, -20.0]))      # malformed request
-    return dict(stream="fit", E=E, n=n, V=V, T=T)
+    return dict(stream="fit", E=E, n=n, V=V, T=T, dtype=rng.choice([None, None, "np", "int"]))
 
 
 def make_fit_case(inp):
@@ -650,45 +779,76 @@ def snapshot(bpv):
 
 
 def run_seq(inp):
-    """returns [impl per call]; impl has the extra keys bp_before / bp_after (and docs_same)"""
+    """returns [impl per call]; impl has the extra keys bp_before / bp_after (and docs_same, late_same).
+    The SAME battery_params object, the SAME generator instances (calls alternate between inst 0 / 1,
+    two live instances with different clip bounds) and the SAME document dicts are used by all calls;
+    the EVs returned by every call are held and re-read after the last call and after the caller has
+    scribbled over its own arguments and over the objects returned by the other calls."""
     bpv = bp_value(inp["bp"])
-    outs = []
-    docs_obj = None
-    if inp["path"] == "acn" and inp.get("share_docs"):
-        _imports()
-        d0 = inp["calls"][0]["docs"]
-        docs_obj = [dict(connectionTime=mkdt(d["conn"][0], d["conn"][1], d["zone"]),
-                         disconnectTime=mkdt(d["disc"][0], d["disc"][1], d["zone"]),
-                         kWhDelivered=d["kwh"], sessionID="sess%d" % i, spaceID="space%d" % i)
-                    for i, d in enumerate(d0)]
+    outs, held = [], []
+    docs_obj = make_docs(inp["calls"][0]) if inp["path"] == "acn" and inp.get("share_docs") else None
+    gens = {}
     for call in inp["calls"]:
         before = snapshot(bpv)
         docs_before = None if docs_obj is None else [dict(d) for d in docs_obj]
+        keep = []
         if inp["path"] == "stoch":
-            impl = run_stoch(call, bp_obj=bpv)
+            pair = None
+            if call["cls"] != "direct":
+                key = call.get("inst", 0)
+                if key not in gens:
+                    gens[key] = make_gen(call["cls"], call["clip"])
+                pair = gens[key]
+            impl = run_stoch(call, bp_obj=bpv, gen_pair=pair, keep=keep)
         else:
-            impl = run_acn(call, bp_obj=bpv, docs_obj=docs_obj)
+            impl = run_acn(call, bp_obj=bpv, docs_obj=docs_obj, keep=keep)
         impl["bp_before"], impl["bp_after"] = before, snapshot(bpv)
         if docs_obj is not None:
             impl["docs_same"] = (docs_before == [dict(d) for d in docs_obj])
+        held.append(keep)
         outs.append(impl)
+    # the caller now changes what it owns ...
+    if bpv is not None:
+        bpv.setdefault("kwargs", {})["transition_soc"] = 0.5
+        bpv["type"] = None
+    if docs_obj is not None:
+        for d in docs_obj:
+            d["kWhDelivered"] = 999.0
+            d["connectionTime"] = d["disconnectTime"]
+    # ... and every held result is re-read: unchanged, and independent of the other calls' results
+    for k, (impl, keep) in enumerate(zip(outs, held)):
+        if "evs" in impl:
+            late = [_ev_obs(ev) for ev in keep]
+            early = [{kk: o[kk] for kk in late[i]} for i, o in enumerate(impl["evs"])] if len(late) == len(impl["evs"]) else None
+            impl["late_same"] = (late == early)
+            for ev in keep:                       # scribble over this call's results before reading the next
+                ev._battery._current_charge = -1.0
+                ev._requested_energy = -1.0
     return outs
 
 
 def gen_seq_input(rng, path):
-    bp = rng.choice(["battery", "battery", "batterykw", "fit", "fitkw", "none"])
-    n = rng.choice([2, 2, 3])
+    bp = rng.choice(["battery", "battery", "batterykw", "fit", "fitkw", "fitkw0", "none"])
+    n = rng.choice([2, 2, 3, 4])
     calls = []
     if path == "stoch":
-        base = gen_stoch_input(rng)
+        bases = [gen_stoch_input(rng), gen_stoch_input(rng)]
+        for b_ in bases:
+            if b_["cls"] == "direct":
+                b_.update(cls=rng.choice(["gmm", "sub"]), clip=[0.0, 24.0, 0.0833, 48.0, 0.5, 150.0])
+        two = rng.random() < 0.5                     # two live generator instances used alternately
         powers = rng.sample([3.3, 6.6, 7, 10, 50], n)
         for k in range(n):
+            inst = k % 2 if two else 0
             c = gen_stoch_input(rng)
-            c.update(bp=bp, cls=base["cls"], clip=base["clip"], maxP=powers[k])
+            was_direct = c["cls"] == "direct"
+            c.update(bp=bp, maxP=powers[k])
+            if not was_direct:
+                c.update(cls=bases[inst]["cls"], clip=bases[inst]["clip"], inst=inst)
+                if rng.random() < 0.5:
+                    c["days"] = bases[0]["days"]     # the same draws again (a parameter sweep)
             if rng.random() < 0.7:
                 c["ff"] = True
-            if rng.random() < 0.5:
-                c["days"] = base["days"]             # the same draws again (a parameter sweep)
             calls.append(c)
         return dict(stream="seq", path="stoch", bp=bp, calls=calls)
     base = gen_acn_input(rng)
@@ -698,7 +858,7 @@ def gen_seq_input(rng, path):
         c = gen_acn_input(rng)
         c.update(bp=bp, maxP=powers[k])
         if share:
-            c.update(docs=base["docs"], start=base["start"], zone=base["zone"])
+            c.update(docs=base["docs"], start=base["start"], zone=base["zone"], ids=base["ids"], dtype=base["dtype"])
         if rng.random() < 0.7:
             c["ff"] = True
         calls.append(c)
@@ -722,6 +882,10 @@ def monitor_seq(inp, impls):
             return "call %d of %d (same battery_params object%s): %s" % (
                 k + 1, len(impls), "" if i["bp_before"] == impls[0]["bp_before"] else
                 ", which an earlier call changed to %r" % (i["bp_before"],), r)
+    for k, i in enumerate(impls):
+        if i.get("late_same") is False:
+            return ("the EVs returned by call %d of %d changed afterwards (later calls / the caller editing its own "
+                    "battery_params, documents or other calls' results)" % (k + 1, len(impls)))
     for k, (c, i) in enumerate(zip(inp["calls"], impls)):
         if i["bp_after"] != i["bp_before"]:
             return ("call %d of %d modified the caller's battery_params: %r -> %r"
@@ -760,7 +924,7 @@ def extra_streams(rng, tier):
     n = CASES[tier]
     stoch = [make_stoch_case(i) for i in corpus("stoch") + CORPUS_STOCH] + \
         [make_stoch_case(gen_stoch_input(rng)) for _ in range(n // 2)]
-    fit = [make_fit_case(i) for i in corpus("fit") + CORPUS_FIT] + [make_fit_case(gen_fit_input(rng)) for _ in range(n // 2)]
+    fit = [make_fit_case(i) for i in corpus("fit") + CORPUS_FIT] + [make_fit_case(gen_fit_input(rng)) for _ in range(n * 2 // 5)]
     hdr = CORR_HEADER
     nseq = max(20, n // 8)
     seq_s = [make_seq_case(i) for i in CORPUS_SEQ] + [make_seq_case(gen_seq_input(rng, "stoch")) for _ in range(nseq)]
@@ -792,7 +956,8 @@ def check_battery(bp, o, V, T):
             return "fitted battery cannot hold the request: cap %r init %r requested %r" % (o["cap"], o["init"], o["requested"])
         if o["cap"] not in LADDER:
             return "capacity %r is not a ladder step" % o["cap"]
-        want_kw = [FIT_KWARGS["noise_level"], FIT_KWARGS["transition_soc"]] if bp == "fitkw" else [0, 0.8]
+        want_kw = {"fitkw": [FIT_KWARGS["noise_level"], FIT_KWARGS["transition_soc"]],
+                   "fitkw0": [FIT_KWARGS0["noise_level"], FIT_KWARGS0["transition_soc"]]}.get(bp, [0, 0.8])
         if o["btype"] != "Linear2StageBattery" or o["bkw"] != want_kw:
             return "battery %s%r does not carry the requested type / kwargs" % (o["btype"], o["bkw"])
         if "fit_error" in o:
@@ -800,6 +965,22 @@ def check_battery(bp, o, V, T):
         if "fit_delivered" in o and abs(F(o["fit_delivered"]) - req) > 2 * REL * cap + F(1, 10 ** 12):
             return ("fitted battery charged at 32 A for the %d-period stay takes %r kWh, requested %r"
                     % (o["departure"] - o["arrival"], o["fit_delivered"], o["requested"]))
+    return None
+
+
+def check_roundtrip(o, ff, maxP, T):
+    """JSON round trip of the generated EV, then the reloaded EV charged flat out through EV.charge"""
+    if "json_error" in o:
+        return "generated EV cannot be saved / reloaded / charged: %s" % o["json_error"]
+    if o.get("json_diff"):
+        return "EV reloaded from its JSON differs in %s" % ", ".join(o["json_diff"])
+    if "flat_out" in o:
+        stay = o["departure"] - o["arrival"]
+        can = F(maxP) * max(stay, 0) * F(T) / 60
+        want = F(o["requested"]) if ff else min(F(o["requested"]), can)
+        if not close(o["flat_out"], want):
+            return ("EV (default battery) charged flat out for its %d-period stay received %r kWh, %s %r"
+                    % (stay, o["flat_out"], "requested" if ff else "expected", float(want)))
     return None
 
 
@@ -881,9 +1062,12 @@ def monitor_acn(inp, impl):
             return "requested energy %r, expected %r" % (o["requested"], float(want))
         if not close(o["max_power"], inp["maxP"]):
             return "battery max power %r is not max_battery_power" % o["max_power"]
-        r = check_battery(inp["bp"], o, inp["V"], T)
+        r = check_battery(inp["bp"], o, inp["V"], T) or check_roundtrip(o, inp["ff"], inp["maxP"], T)
         if r:
             return r
+        sid, spid = doc_ids(inp, len(rows))
+        if (o["session"], o["station"]) != (str(sid), str(spid)):
+            return "session / station ids %r, expected %r" % ((o["session"], o["station"]), (str(sid), str(spid)))
         rows.append((ts_exact(*d["conn"]), o["arrival"]))
     rows.sort()
     for (c1, a1), (c2, a2) in zip(rows, rows[1:]):
@@ -914,6 +1098,10 @@ def monitor_stoch(inp, impl):
         if not rejection_ok(inp["bp"], sess, inp["V"], T, recursion=rec):
             return "generate_events raised %s although every row is acceptable" % impl["error"]
         return None
+    if impl.get("matrix_same") is False:
+        return "_convert_ev_matrix modified the caller's matrix"
+    if "after_scribble" in impl and impl["after_scribble"] != [{k: o[k] for k in a_} for o, a_ in zip(impl["evs"], impl["after_scribble"])]:
+        return "EVs changed when the caller overwrote its matrix after the call"
     want = []
     for idx, a, d, e in stoch_rows_exact(inp):
         if a < 0 or d <= 0 or e <= 0:
@@ -943,7 +1131,7 @@ def monitor_stoch(inp, impl):
         if inp["ff"] and F(o["requested"]) > F(o["max_power"]) * (o["departure"] - o["arrival"]) * F(T) / 60 * (1 + REL):
             return ("row %d: force_feasible request %r kWh is not deliverable by its battery (%r kW) in %d periods"
                     % (w[0], o["requested"], o["max_power"], o["departure"] - o["arrival"]))
-        r = check_battery(inp["bp"], o, inp["V"], T)
+        r = check_battery(inp["bp"], o, inp["V"], T) or check_roundtrip(o, inp["ff"], inp["maxP"], T)
         if r:
             return r
         if inp["ff"] and F(o["requested"]) > F(inp["maxP"]) * (o["departure"] - o["arrival"]) * F(T) / 60 * (1 + REL):
@@ -974,6 +1162,12 @@ def monitor_fit(inp, impl):
     cap, init = F(impl["cap"]), F(impl["init"])
     if "charge_error" in impl:
         return "the fitted battery cannot be built / charged: %s" % impl["charge_error"]
+    for key, what in (("again_same", "batt_cap_fn returned something else for the same request after another request"),
+                      ("reset_same", "after reset() the same charging delivers a different amount"),
+                      ("reset_init", "reset(x) then reset() does not restore the fitted initial charge"),
+                      ("json_mid_same", "a JSON round trip of the battery half way through the stay changes the outcome")):
+        if impl.get(key) is False:
+            return what
     if impl["cap"] not in LADDER or cap < E:
         return "capacity %r is not a ladder step >= request" % impl["cap"]
     if init < 0 or init > cap or init + E > cap * (1 + REL):
